@@ -26,12 +26,12 @@ pub use super::math_stub::bit_len;
 }
 pub mod mul {
 use super::*;
-//@@ SIG integer/mul/mul_dword_in_place.rs
+//@@ SIG integer/mul_algos/mul_dword_in_place.rs
 //@@ SIG integer/mul/mul_word_in_place.rs
 }
 pub mod sqr {
 use super::*;
-//@@ SIG integer/sqr/sqr.rs
+//@@ SIG integer/mul_algos/sqr.rs
 #[verifier::external_body]
 pub fn memory_requirement_exact(len: usize) -> Layout { unimplemented!() }
 }
